@@ -422,9 +422,11 @@ var (
 func aggCase(r *verifx.Rng) {
 	rk := int32(r.Range(1, 3))
 	sk := int32(r.Range(1, 4))
-	sw := r.Range(2, aggregator.VerifC10MaxShortWindow())
+	minSW, maxSW := 3, aggregator.VerifC10MaxShortWindow() // the range ConfigAggregatorRemote.Validate allows
+	sw := r.Range(minSW, maxSW)
 	if r.Chance(1, 8) {
 		sw = r.Range(1, 9)
+		minSW, maxSW = 1, 9
 	}
 	hw := []uint32{0, 1, 3, 10, 100, 86400, 172800}[r.Intn(7)]
 	if aggV == nil || aggUses >= 200 { // the built-in agent keeps every metric row it is given: renew it now and then
@@ -474,6 +476,36 @@ func aggCase(r *verifx.Rng) {
 	nOps := r.Range(8, 30)
 	sawHist, sawRecent, sawRound := false, false, false
 	for k := 0; k < nOps; k++ {
+		if r.Chance(1, 7) { // remote config changes ShortWindow while running: +-1, +-2, or anywhere in the range
+			nsw := sw
+			switch r.Pick(3, 3, 3, 3, 2) {
+			case 0:
+				nsw = sw + 1
+			case 1:
+				nsw = sw + 2
+			case 2:
+				nsw = sw - 1
+			case 3:
+				nsw = sw - 2
+			default:
+				nsw = r.Range(minSW, maxSW)
+			}
+			if nsw < minSW {
+				nsw = minSW
+			}
+			if nsw > maxSW {
+				nsw = maxSW
+			}
+			h.Stat(fmt.Sprintf("agg.shortWindow.delta%+d", nsw-sw), 1)
+			sw = nsw
+			v.SetShortWindow(sw)
+			h.Op("agg sw %d", sw)
+			if r.Bool() { // usually the next tick follows; sometimes sends arrive first
+				now++
+				advance(false)
+			}
+			continue
+		}
 		if r.Chance(1, 4) {
 			switch r.Pick(10, 3, 1, 1) {
 			case 0:
